@@ -51,24 +51,30 @@ def gen(rng, i, tier):
         elif x < 0.35:
             bypos[p] = (rng.random() < 0.7, None, [])
     c['env']['bypos'] = bypos
-    c['cls'] = CLASSES[i % len(CLASSES)]
+    c['cls'] = CLASSES[(i // 3) % len(CLASSES)]
+    c['queued'] = (i % 3 != 2)          # every third case: no queue (immediate, re-entrant processing)
     del c['init']
     return c
 
 
 def enc(case):
     return [flat.enc_machine(case['machine']), flat.enc_env(case['env']),
-            [[m, s] for m, s in case['models']], [[m, e, a] for m, e, a in case['history']]]
+            [[m, s] for m, s in case['models']], [[m, e, a] for m, e, a in case['history']], bool(case.get('queued', True))]
 
 
 def canon(case, obs):
     """both sides -> per call [items, result, states, registered models, processed arrival ids, nested ok]"""
     if isinstance(obs, dict):
         return obs
-    if obs[0] != 1:
+    if obs[0] not in (1, 2):
         return obs
+    queued = case.get('queued', True)
     if obs[1] and isinstance(obs[1][0], dict):      # implementation side: already canonical
+        if not queued:
+            return [2, [[o['items'], o['result'], o['states'], o['models']] for o in obs[1]]]
         return [1, [[o['items'], o['result'], o['states'], o['models'], o['processed'], o['nested_true']] for o in obs[1]]]
+    if obs[0] == 2:
+        return [2, [[st[0], st[1], st[2], st[3]] for st in obs[1]]]
     out = []
     for step in obs[1]:
         if step == [9]:
@@ -92,7 +98,7 @@ def impl_queue(case):
     c2 = dict(case)
     c2['init'] = case['models'][0][1]
     machine, _ = flat.build_machine(c2, world, cls=flat.get_class(cname), models=models,
-                                    extra_kwargs=dict(queued=True, **flat.class_kwargs(cname)))
+                                    extra_kwargs=dict(queued=bool(case.get('queued', True)), **flat.class_kwargs(cname)))
     for (k, s0), mod in zip(case['models'], models):
         machine.set_state('s%d' % s0, mod)
     st = dict(next_id=0, payload_id={}, act_k={}, nested=[])
@@ -109,8 +115,11 @@ def impl_queue(case):
         k = st['act_k'].get(cur, 0)
         st['act_k'][cur] = k + 1
         if a[0] == 0:
-            r = call_trigger(models[a[1]], a[2], 1000 + 16 * cur + k)
-            st['nested'].append(r is True)
+            if case.get('queued', True):
+                r = call_trigger(models[a[1]], a[2], 1000 + 16 * cur + k)
+                st['nested'].append(r is True)
+            else:
+                call_trigger(models[a[1]], a[2], 2000 + 8 * world.cur_pos + world.cur_k)
         else:
             if models[a[1]] in machine.models:
                 machine.remove_model(models[a[1]])
@@ -122,6 +131,8 @@ def impl_queue(case):
         try:
             r = call_trigger(models[m], e, a)
             res = [0, 1 if r is True else (0 if r is False else 7)]
+            if not case.get('queued', True):
+                res = [0, bool(r)]
         except BaseException as ex:  # noqa
             res = [1, flat.classify_exc(ex)]
         processed = []
@@ -133,19 +144,31 @@ def impl_queue(case):
                         states=[[k, flat.state_int(mod)] for (k, _), mod in zip(case['models'], models)],
                         models=[world.model_ids[id(x)] for x in machine.models],
                         processed=processed, nested_true=1 if all(st['nested']) else 0))
-    return [1, out]
+    return [1 if case.get('queued', True) else 2, out]
 
 
 def nontrivial(case, obs):
-    if not isinstance(obs, list) or obs[0] != 1:
+    if not isinstance(obs, list) or obs[0] not in (1, 2):
         return False
     for step in obs[1]:
         if isinstance(step, list) and len(step) >= 5 and (len(step[4]) >= 2 or step[1][0] == 1):
             return True
+        if isinstance(step, list) and len(step) == 4:
+            payloads = {tuple(it[4]) for it in step[0]}
+            if len(payloads) >= 2:                   # a nested event ran inside the call
+                return True
     return False
 
 
 def stats(case, obs, dist):
+    if isinstance(obs, list) and obs[0] == 2:
+        for step in obs[1]:
+            n = len({tuple(it[4]) for it in step[0]})
+            key = 'unqueued_events_in_call_%s' % (n if n < 4 else '4+')
+            dist[key] = dist.get(key, 0) + 1
+            if step[1][0] == 1:
+                dist['unqueued_calls_raising'] = dist.get('unqueued_calls_raising', 0) + 1
+        return
     if not isinstance(obs, list) or obs[0] != 1:
         return
     for step in obs[1]:
